@@ -105,12 +105,14 @@ func (c *C09Case) preState() *pworld {
 		simos.SetClock(simtime.Now)
 		simos.Mount(w.disk, nil)
 		simrt.SetOrderCanonical()
-		h := history.NewSearchHistory(pHistory, 100)
-		for i := 0; i < c.HistoryN; i++ {
-			h.AddEntry(fmt.Sprintf("earlier query %d", i), i, "", time.Duration(i)*time.Millisecond)
-			simtime.Advance(time.Minute)
-		}
-		_ = h.Save()
+		inSim(c.Sched, func() {
+			h := history.NewSearchHistory(pHistory, 100)
+			for i := 0; i < c.HistoryN; i++ {
+				h.AddEntry(fmt.Sprintf("earlier query %d", i), i, "", time.Duration(i)*time.Millisecond)
+				simtime.Advance(time.Minute)
+			}
+			_ = h.Save()
+		})
 		w.clockNS = simtime.NowNS()
 		simos.Unmount()
 		simtime.Uninstall()
@@ -428,7 +430,7 @@ func runC09(c C09Case) *Outcome {
 func (c *C09Case) judge(w *pworld, args []string, spec FaultSpec, tag, oldNB, newNB, oldH, newH string, isSave bool) c09Verdict {
 	v := c09Verdict{spec: spec}
 	plan, quota := spec.plan()
-	job := &NodeJob{Args: argsOf(args...), Disk: w.disk.Clone(), ClockNS: w.clockNS, Faults: plan}
+	job := &NodeJob{Args: argsOf(args...), Disk: w.disk.Clone(), ClockNS: w.clockNS, Faults: plan, Sched: w.sched}
 	job.Disk.Quota = quota
 	res, err := runNode(job, tag)
 	if err != nil {
